@@ -64,9 +64,9 @@ class Decl:
         return [j for j, c in enumerate(self.cccd) if rec(c) == rec(first)]
 
 
-def load_decls(ctx):
+def load_decls(ctx, key="default"):
     q = [["reset " + s, "decl", "cellsdump", "table"] for s in SERVERS]
-    r = ctx.run_impl(q)
+    r = ctx.run_impl(q, key)
     decls = {}
     for s, x in zip(SERVERS, r):
         if x["crash"] or len(x["out"]) != 4 or not x["out"][1].startswith("def "):
@@ -169,7 +169,8 @@ class Monitor:
         self.pending = [dict(), dict()]        # (j, kind) -> how it was requested
         self.cells = [bytearray(x) for x in d.cells]
         self.neg = [min(d.mtu, 23)] * 2
-        self.awaiting = [False, False]         # an indication may be unconfirmed
+        self.awaiting = [False, False]         # an indication PDU was sent and is not yet confirmed (exact)
+        self.unsent_ind = [False, False]       # an indication was dequeued without being sent since the last confirmation
         self.unknown = [False, False]          # the oracle lost track of silently dropped requests
 
     def sendable(self, c, j, k, size):
@@ -201,6 +202,7 @@ class Monitor:
                 self.unknown[c] = True        # ... so the oracle can not tell which one has to be transmitted
         elif w[0] == "conf":
             self.awaiting[int(w[1])] = False
+            self.unsent_ind[int(w[1])] = False
         elif w[0] == "out":
             c, size = int(w[1]), int(w[2])
             if out.startswith("OVERSIZE") or out == "OOB":
@@ -211,20 +213,24 @@ class Monitor:
                 # buffer below 3 bytes; an indication is not dequeued while a confirmation is awaited
                 droppable = [jk for jk in p if not self.sendable(c, jk[0], jk[1], size) and not (jk[1] == "i" and self.awaiting[c])]
                 if p and not droppable and not self.unknown[c] and any(self.sendable(c, j, k, size) for (j, k) in p):
-                    j, k = sorted(p)[0]
+                    j, k = sorted(jk for jk in p if self.sendable(c, jk[0], jk[1], size))[0]
+                    if self.unsent_ind[c] and all(kk == "i" for (jj, kk) in p if self.sendable(c, jj, kk, size)):
+                        return ("C11:indication-blocked-by-unsent-indication",
+                                "connection %d: nothing sent although the indication of characteristic #%d (uuid %04x) is pending, subscribed and readable "
+                                "and no transmitted indication is unconfirmed: an earlier indication that was dequeued WITHOUT being sent (not subscribed / "
+                                "not readable / buffer < 3) left the queue waiting for a confirmation" % (c, j, d.cccd[j]["uuid"]))
                     return ("C10:request-not-transmitted:" + p[(j, k)],
                             "connection %d: nothing sent although %s of characteristic #%d (uuid %04x, requested by %s) is pending, subscribed and readable"
                             % (c, "notification" if k == "n" else "indication", j, d.cccd[j]["uuid"], p[(j, k)]))
+                # an unsent indication must not be waited for (fixes/attnotify-03): `awaiting` is changed by PDUs and confirmations only
+                if any(k == "i" for (_, k) in droppable):
+                    self.unsent_ind[c] = True
                 if self.unknown[c]:
                     return None                     # no exact tracking any more: `pending` stays a superset
                 if len(droppable) == 1:
-                    if droppable[0][1] == "i":
-                        self.awaiting[c] = True     # the code marks even an unsent indication as unconfirmed (C11 observation)
                     del p[droppable[0]]
                 elif droppable:
                     self.unknown[c] = True
-                    if any(k == "i" for (_, k) in droppable):
-                        self.awaiting[c] = True
                 return None
             pdu = bytes.fromhex(out)
             if len(pdu) > min(size, self.neg[c]):
@@ -251,9 +257,13 @@ class Monitor:
                 return "C10:wrong-value", "PDU %s: value of characteristic #%d is %s (clipped to %d)" % (out, j, exp.hex(), min(size, self.neg[c]) - 3)
             if not ch["readable"]:
                 return "C10:unreadable-value-sent", "PDU %s for a characteristic with no_read_access" % out
+            if k == "i" and self.awaiting[c]:
+                return ("C11:second-indication-before-confirmation",
+                        "connection %d: indication %s although the previous indication PDU on this connection is not confirmed" % (c, out))
             del self.pending[c][(j, k)]
             if k == "i":
                 self.awaiting[c] = True
+                self.unsent_ind[c] = False
         return None
 
 
@@ -266,6 +276,58 @@ def monitor(d, ops, outs):
         if r:
             return k, r[0], r[1]
     return None
+
+
+def c11_sessions(decls):
+    """C11: an indication that is dequeued but not transmitted must not block the connection's indications
+    (and an unsent notification must not confirm a transmitted one).  P4: #0 a001 n, #1 a002 n+i, #2 a003 i,
+    #3 a004 n;  R1: #0 a001 n (no_read_access), #1 a002 n+i, #2 a003 i (no_read_access)"""
+    P4, R1, P3 = decls["P4"], decls["R1"], decls["P3"]
+    s = []
+    # not subscribed
+    s.append(prefix(P4) + ["nu 0 40962 i", "out 0 23", "sub 0 2 2", "nu 0 40963 i", "out 0 23", "out 0 23", "conf 0", "out 0 23"])
+    # by bound value, other connection untouched, two rounds
+    s.append(prefix(P4) + ["sub 1 1 3", "nv 0 1 i", "nv 1 1 i", "out 0 23", "out 1 23", "sub 0 1 2", "nv 0 1 i", "out 0 23", "out 1 23",
+                           "conf 0", "conf 1", "sub 0 1 1", "nv 0 1 i", "out 0 23", "sub 0 1 3", "nv 0 1 i", "out 0 23"])
+    # value not readable
+    s.append(prefix(R1) + ["sub 0 2 2", "sub 0 1 2", "nu 0 40963 i", "out 0 23", "nu 0 40962 i", "out 0 23", "out 0 23"])
+    # buffer below 3 bytes
+    s.append(prefix(P4) + ["sub 0 1 2", "nu 0 40962 i", "out 0 2", "nu 0 40962 i", "out 0 23", "out 0 23"])
+    # cyclic priorities (P3: #0 a001 n, #1 a003 i, #2 a004 n+i)
+    s.append(prefix(P3) + ["sub 0 1 2", "nu 0 40964 i", "out 0 23", "nu 0 40963 i", "out 0 23"])
+    # mirror image: an unsent NOTIFICATION does not confirm the transmitted indication
+    s.append(prefix(P4) + ["sub 0 1 2", "sub 0 2 2", "nu 0 40962 i", "out 0 23", "nu 0 40961 n", "nu 0 40963 i", "out 0 23", "out 0 23",
+                           "conf 0", "out 0 23"])
+    s.append(prefix(R1) + ["sub 0 1 2", "sub 0 0 1", "nu 0 40962 i", "out 0 23", "nu 0 40961 n", "nu 0 40962 i", "out 0 23", "out 0 23", "conf 0", "out 0 23"])
+    return s
+
+
+def run_c11_sessions(ctx, res, key="att", model_exe=None):
+    """used by comp/notifq.py (C11): the dedicated sessions on the real server<> (harness key `key`) and on the
+    AttNotify model; C11:* monitor hits and model/code disagreements are added to `res`"""
+    decls = load_decls(ctx, key)
+    sessions = c11_sessions(decls)
+    impl = ctx.run_impl(sessions, key)
+    model = ctx.run_model(sessions, exe=model_exe) if model_exe else None
+    for i, (ops, r) in enumerate(zip(sessions, impl)):
+        d = decls[ops[0].split()[1]]
+        res.sessions += 1
+        res.evaluations += len(r["out"])
+        res.count("server_level_sessions (real server<>::l2cap_output)")
+        if r["crash"]:
+            res.failures.append({"key": "C11:crash:" + r["crash"].split(" @")[0], "what": r["crash"], "ops": ops[:len(r["out"]) + 1]})
+            continue
+        m = monitor(d, ops, r["out"])
+        if m:
+            k, mkey, what = m
+            res.failures.append({"key": mkey if mkey.startswith("C11:") else "C11:server-level:" + mkey,
+                                 "what": "server %s: %s" % (d.name, what), "ops": ops[:k + 1]})
+        if model is not None and (model[i]["crash"] or model[i]["out"] != r["out"]):
+            mo = model[i]["out"]
+            k = next((x for x in range(min(len(mo), len(r["out"]))) if mo[x] != r["out"][x]), min(len(mo), len(r["out"])))
+            res.disagreements.append({"session": i, "op_index": k, "op": ops[min(k, len(ops) - 1)], "impl": r["out"][k] if k < len(r["out"]) else None,
+                                      "model": mo[k] if k < len(mo) else model[i]["crash"], "ops": ops[:k + 1]})
+    return res
 
 
 def run_c10(ctx, replay_path=None):
@@ -291,6 +353,9 @@ def run_c10(ctx, replay_path=None):
         for ops in directed(decls[s]):
             sessions.append(ops)
             owner.append(s)
+    for ops in c11_sessions(decls):
+        sessions.append(ops)
+        owner.append(ops[0].split()[1])
     n_dir = len(sessions)
     per = 40 if ctx.thorough else 5
     for s in SERVERS:
